@@ -10,6 +10,7 @@ import (
 	"verifharness/memtr"
 	"verifharness/refbmc"
 
+	"github.com/gebn/bmc"
 	"github.com/gebn/bmc/pkg/ipmi"
 )
 
@@ -180,11 +181,20 @@ func c04Run(run *ev.Run, o c04One) {
 		return 0, authBody, true
 	}
 	ctx, cancel := e.LimitCtx(20)
-	sess, err := e.OpenSession(ctx, su)
+	prefs := []ipmi.CipherSuite{libSuite(su)}
+	sess, err := e.ST.NewV2Session(ctx, &bmc.V2SessionOpts{
+		SessionOpts:  bmc.SessionOpts{Username: cfg.Username, Password: cfg.Password, MaxPrivilegeLevel: ipmi.PrivilegeLevelAdministrator},
+		CipherSuites: prefs,
+	})
 	cancel()
 	if err != nil {
 		run.Violation("C04:handshake-failed", err.Error(), cs, nil)
 		return
+	}
+	if (o.Arg+o.Code+o.Suite+len(o.Kind))%2 == 0 {
+		// the caller's option values are the caller's: once the session exists it wipes (or reuses)
+		// its preference list
+		prefs[0] = ipmi.CipherSuite{}
 	}
 	// half of the cases first run an in-session Get Channel Authentication Capabilities whose
 	// (authentic) answer has every capability and "disabled" bit set: nothing in it may relax
@@ -269,6 +279,13 @@ func c04Run(run *ev.Run, o c04One) {
 	pv, stk := safe(func() {
 		switch o.Cmd {
 		case "guid":
+			if (o.Arg+o.Suite)%2 == 1 {
+				// through the session's own method
+				var g [16]byte
+				g, err = sess.GetSystemGUID(cctx)
+				value = g[:]
+				break
+			}
 			cmd := &ipmi.GetSystemGUIDCmd{}
 			code, err = sess.SendCommand(cctx, cmd)
 			value = cmd.Rsp.GUID[:]
